@@ -595,5 +595,5 @@ _describe_base = describe
 
 def describe(tier):     # noqa: F811 - the base description plus what later rounds added to the space
     d = _describe_base(tier)
-    d["rule"] = d["rule"] + " " + 'Further operations: peak options that scipy refuses (the object must stay as it was: recorded range == model range, no silent return), range updates given to azimuth 1 through the member object (per-member range model). Further roots: every curve over {1,2,3}^7 as a window of a traditional result (three per object; every third group in quick: one in 27), and pairs of live objects on the grids lin / same-ends (PairSystem: each update applied to both objects, either order).'
+    d["rule"] = d["rule"] + " " + 'Further operations: peak options that scipy refuses (the object must stay as it was: recorded range == model range, no silent return), range updates given to azimuth 1 through the member object (per-member range model). Further roots: every curve over {1,2,3}^7 as a window of a traditional result (three per object; every third group in quick: one in 27), and pairs of live objects on the grids lin / same-ends (PairSystem: each update applied to both objects, either order). In every diffuse-field state mean_curve_peak() with the range omitted is judged against the documented default range (None, None).'
     return d
